@@ -760,6 +760,31 @@ func raceCmd(args []string) int {
 		})
 	}
 	if *order == "after" {
+		// cold start, step 0: the very first CONSTRUCTION of every kind of object happens on G goroutines at once, and
+		// each goroutine then waits quietly at a rendezvous - a table built lazily by the first constructor call (and
+		// guarded by nothing) is reported by the race detector only while the goroutine that built it is still alive
+		// and has not buried the access under later work
+		{
+			var built sync.WaitGroup
+			built.Add(G)
+			parallel(func(g int) {
+				switch g % 4 {
+				case 0:
+					c := &cpualt.CPU{}
+					c.Init()
+				case 1:
+					b, _ := bus.New()
+					_, _ = cpu65c816.New(b)
+				case 2:
+					_ = asm.NewEmitter(make([]byte, 16), true)
+				case 3:
+					c := &cpualt.CPU{}
+					c.Init()
+				}
+				built.Done()
+				built.Wait()
+			})
+		}
 		// cold start: the very first use of the library in this process is concurrent
 		first := make([][]*raceDigest, len(jobs))
 		round(first, true)
